@@ -172,11 +172,11 @@ impl Clone for TransitionCycle {
     ensures
         r.0 == sp_end_depot(&eff_tours(updated_tours@, old_tours@)[self.pred_of(vehicle)]),
         r.1 == sp_start_depot(&eff_tours(updated_tours@, old_tours@)[self.succ_of(vehicle)]),
-//@closure 0
+//@closure position#0
     -> (b: bool) ensures b == (v == vehicle)
-//@closure 1
+//@closure? unwrap_or_else#0
     -> (q: &Tour) requires old_tours@.contains_key(predecessor) ensures *q == old_tours@[predecessor]
-//@closure 2
+//@closure? unwrap_or_else#1
     -> (q: &Tour) requires old_tours@.contains_key(successor) ensures *q == old_tours@[successor]
 //@before "let predecessor"
         proof {
